@@ -88,7 +88,9 @@ def gen_random_case(rng, kinds):
     if fstyle == "plain":
         feats = [f"Y{i}" for i in range(d)]
     elif fstyle == "odd":
-        pool = ["ADAS 11", "mmse-total", "β-amyloid", "x.1", "feature,with,commas", "Été", "a" * 40, "0", "y"]
+        pool = ["ADAS 11", "mmse-total", "β-amyloid", "x.1", "feature,with,commas", "Été", "a" * 40, "0", "y",
+                # headers as they come out of spreadsheets: surrounding blanks / tabs, upper case, inner double blank
+                "MMSE ", " ADAS-Cog 13", "CDR\t", "  padded  ", "UPPER", "Two  blanks", "trailing.", "'quoted'"]
         feats = rng.sample(pool, d)
     else:
         feats = None
@@ -188,7 +190,7 @@ def build_model(E, case):
     which = case["which"]
     df0, _ = A.cohort(which)
     cols = A.feature_columns(df0)[: case["d"]]
-    rename = {c: f"ft {i} é" for i, c in enumerate(cols)} if case["rename"] else None
+    rename = {c: (f"ft {i} é" if i % 2 == 0 else f" Ft{i} \t") for i, c in enumerate(cols)} if case["rename"] else None   # headers taken over by fit, blanks included
     n_ind = None if which in ("multi", "uni") else 8
     df, data = A.cohort(which, n_ind=n_ind, columns=cols, rename=rename)
     if case["give_dim"]:
